@@ -78,7 +78,7 @@ pub fn eval(case: &J) -> Outcome {
     let cls = if sql.contains("random()") { "random" } else if sql.contains(" AS ") && !sql.contains("SELECT *") { "aliased" } else { "implicit-names" };
     out.tag(&format!("class={cls}"));
     let r1 = match compile(&sql) { Ok(Ok(r)) => r, Ok(Err(_)) => { out.tag("trivial"); out.tag("compile-err"); return out; }
-        Err((loc, msg)) => { out.tag("trivial"); out.fail(&format!("C18/determ/compile-panic/{}", site(&loc, &msg)), format!("{sql}: {msg}")); return out; } };
+        Err((loc, msg)) => { out.tag("trivial"); out.fail(&format!("C18/determ/compile-panic/{}{}", site(&loc, &msg), compile_panic_cause(&sql, &loc, &msg).map(|c| format!("/{c}")).unwrap_or_default()), format!("{sql}: {msg}")); return out; } };
     let t1 = match guarded(|| render(&r1)) { Ok(t) => t, Err((loc, msg)) => { out.fail(&format!("C18/determ/render-panic/{}", site(&loc, &msg)), format!("{sql}: {msg}")); return out; } };
     // rendering twice
     if render(&r1) != t1 { out.fail(&format!("C16/determ/render-twice-differs/{cls}"), format!("{sql}: two renderings of the same relation differ")); }
